@@ -32,6 +32,9 @@ func (m *Model) RunOpTable(s *Sink, rule string) {
 	var leftP, rightP *ssa.Parameter
 	for _, c := range callsToFn(outer, disp) {
 		for i, a := range c.Call.Args {
+			if ex, isEx := a.(*ssa.Extract); isEx && ex.Index == 0 {
+				a = ex.Tuple // the value result of an evaluation wrapper
+			}
 			if ec, ok := a.(*ssa.Call); ok && isEvalCall(m, ec) && i < len(disp.Params) {
 				// Eval(left) / Eval(right): the node argument is a parameter of evalInfixExp named by position
 				if p, ok := stripIface(ec.Call.Args[1]).(*ssa.Parameter); ok {
